@@ -116,6 +116,23 @@ class C17(Prop):
             out.append(("nonascii", {"k": "run", "text": t, "ret": {}}))
         for t, want in REAL:
             out.append(("real-builtins", {"k": "real", "text": t, "want": want}))
+        # the same queries repeated on one store while buckets are deleted and re-created: an unknown bucket is a
+        # function error every time, whatever was looked up before
+        rng = ctx.rng("c17seq")
+        qs = [('RETURN = query_bucket("{b}");', ), ('RETURN = query_bucket_eventcount("{b}");', ),
+              ('e = query_bucket("{b}"); RETURN = sort_by_timestamp(e);', ), ('RETURN = query_bucket(find_bucket("{b}"));', )]
+        for _ in range(ctx.pick(40, 600)):
+            steps = []
+            for _ in range(rng.randint(3, 8)):
+                r = rng.random()
+                b = rng.choice(["win", "afk"])
+                if r < 0.6:
+                    steps.append(["q", rng.choice(qs)[0].replace("{b}", b), b])
+                elif r < 0.85:
+                    steps.append(["del", b])
+                else:
+                    steps.append(["create", b])
+            out.append(("sequence", {"k": "seq", "steps": steps}))
         # arity / type grid
         kinds4 = "LSID"
         for name in sorted(reg):
@@ -201,6 +218,8 @@ class C17(Prop):
         if k == "real":
             o = Q.run_text_real(case["text"])
             return o if o[0] == "err" else ["value"]
+        if k == "seq":
+            return Q.run_sequence_real(case["steps"])
         if k == "registry":
             from ..registry_dump import describe
 
@@ -212,7 +231,7 @@ class C17(Prop):
         k = case["k"]
         if k == "registry":
             return ["q registry"]
-        if k == "real" or not Q.is_ascii(case["text"]):
+        if k == "seq" or k == "real" or not Q.is_ascii(case["text"]):
             return []
         if k == "run":
             return [Q.line_run(case["text"], case.get("ret"))]
@@ -240,6 +259,21 @@ class C17(Prop):
         k = case["k"]
         if k == "registry":
             return None
+        if k == "seq":
+            live = {"win", "afk"}
+            for st, o in zip(case["steps"], out):
+                if st[0] == "del":
+                    live.discard(st[1])
+                elif st[0] == "create":
+                    live.add(st[1])
+                else:
+                    if o[0] == "err" and o[1] not in Q.QUERY_ERRS:
+                        return f"{o[1]} escaped from {st[1]!r} instead of a query error"
+                    want = "value" if st[2] in live else "QueryFunction"
+                    got = o[1] if o[0] == "err" else "value"
+                    if got != want:
+                        return f"{st[1]!r} with bucket {st[2]} {'present' if st[2] in live else 'deleted'}: {got}, expected {want}"
+            return None
         if isinstance(out, list) and out and out[0] == "err":
             if out[1] not in Q.QUERY_ERRS:
                 return f"{out[1]} escaped instead of a query error"
@@ -266,15 +300,23 @@ class C17(Prop):
         return None
 
     def nontrivial(self, case, out):
+        if case["k"] == "seq":
+            return True
         return case["k"] != "registry" and any(c in case["text"] for c in "()[]{}\"',:=")
 
     def features(self, case, out):
         if case["k"] == "registry":
             return ["registry"]
+        if case["k"] == "seq":
+            return ["seq:" + (o[1] if o[0] == "err" else o[0]) for o in out]
         o = ("err:" + out[1]) if isinstance(out, list) and out and out[0] == "err" else "value"
         return [f"{case['k']}:{o}"]
 
     def shrink(self, case):
+        if case["k"] == "seq":
+            for i in range(len(case["steps"])):
+                yield {**case, "steps": case["steps"][:i] + case["steps"][i + 1 :]}
+            return
         if "text" in case:
             for t in Q.shrink_text(case["text"]):
                 yield {**case, "text": t}
